@@ -189,11 +189,13 @@ impl Parser {
     //@  rewrite R21
     //@  requires old(self).comp.coupled()
     //@  assert @break_removes_handlers_of_left_try_blocks before_stmt "let break_pos = self.emit_jump(" self.comp.hdepth == self.comp.loop_stack@.last().2
+    //@  assert @break_out_of_a_try_statement_runs_its_finally_block after_stmt "self.emit_try_exits(" old(self).comp.try_depth > try_depth ==> self.code().last() == opcode_byte(OpCode::JumpFinally)
     //@end
     //@fn file=yarel/src/compiler.rs path=Parser::continue_statement
     //@  rewrite R21
     //@  requires old(self).comp.coupled()
     //@  assert @continue_removes_handlers_of_left_try_blocks before_stmt "self.emit_loop(" self.comp.hdepth == self.comp.loop_stack@.last().2
+    //@  assert @continue_out_of_a_try_statement_runs_its_finally_block after_stmt "self.emit_try_exits(" old(self).comp.try_depth > try_depth ==> self.code().last() == opcode_byte(OpCode::JumpFinally)
     //@end
 }
 
